@@ -69,6 +69,29 @@ def corpus():
     return _corpus_cache
 
 
+_extra_cache = None
+
+
+def corpus_extra():
+    """Import-using sources for C18 only (C17 keeps a flat store): programs that every fresh
+    process rejects in the same way (an ambiguous call through two libraries, an import that
+    exists only in a sub-directory another source imports from), with their libraries; a
+    library file `sub__libS.nsl` is the module "sub/libS"."""
+    global _extra_cache
+    if _extra_cache is None:
+        files, libs = [], []
+        d = os.path.join(CORPUS_DIR, "c18only")
+        for fn in sorted(os.listdir(d)):
+            with open(os.path.join(d, fn), encoding="utf-8") as f:
+                files.append((fn[:-4], f.read()))
+        d = os.path.join(CORPUS_DIR, "libs_extra")
+        for fn in sorted(os.listdir(d)):
+            with open(os.path.join(d, fn), encoding="utf-8") as f:
+                libs.append([fn[:-4].replace("__", "/"), f.read()])
+        _extra_cache = (files, libs)
+    return _extra_cache
+
+
 def _generated_source(rng):
     """Programs from the C15 / C16 generators (more shapes than the corpus)."""
     from . import gen15, gen16, genmisc, lang
@@ -88,9 +111,11 @@ def generate(seed, tier):
     rng = core.sub_rng(seed, "c18.sched")
     srng = core.sub_rng(seed, "c18.sources")
     files, libs = corpus()
+    xfiles, xlibs = corpus_extra()
+    libs = {v: list(l) + xlibs for v, l in libs.items()}
     with_imports = rng.random() < 0.7
     pool = []
-    for name, src in files:
+    for name, src in list(files) + xfiles:
         if "import " in src and not with_imports:
             continue
         pool.append(src)
